@@ -676,8 +676,52 @@ def replay_lifecycle_search(p):
                 break
         if problems:
             break
+    if not problems:
+        # phase 2: two evaluators, operations on either (state shared between instances)
+        ops = [(w, name) for w in (0, 1) for name in texts]
+        for s0 in valid:
+            for s1 in valid:
+                for n in range(1, 4):
+                    for seq in itertools.product(ops, repeat=n):
+                        with quiet():
+                            evs = [ExperimentEvaluator(valid[s0]), ExperimentEvaluator(valid[s1])]
+                        acc = [s0, s1]
+                        trail = ["new#0(%s)" % s0, "new#1(%s)" % s1]
+                        bad = None
+                        for who, name in seq:
+                            trail.append("recompile#%d(%s)" % (who, name))
+                            try:
+                                with quiet():
+                                    evs[who].recompile(texts[name])
+                                if name in invalid:
+                                    bad = "recompile(%s) returned without raising" % name
+                                    break
+                                acc[who] = name
+                            except Exception:
+                                if name in valid:
+                                    bad = "recompile(%s) raised on a valid text" % name
+                                    break
+                            for j in (0, 1):
+                                try:
+                                    got = [evs[j](uid=i) for i in ids]
+                                except Exception as e:
+                                    got = "raised %s" % type(e).__name__
+                                if got != fresh[acc[j]]:
+                                    bad = "evaluator #%d behaves unlike a fresh evaluator of %s" % (j, acc[j])
+                                    break
+                            if bad:
+                                break
+                        if bad:
+                            problems.append(" -> ".join(trail) + ": " + bad)
+                            break
+                    if problems:
+                        break
+                if problems:
+                    break
+            if problems:
+                break
     return {"reproduced": bool(problems), "expected": "every history conforms to the model", "observed": problems[0] if problems else
-            "no misbehaving history up to %d recompiles" % max_len}
+            "no misbehaving history up to %d recompiles (one evaluator) / 3 operations on two evaluators" % max_len}
 
 
 @register("same_print_history")
